@@ -36,10 +36,11 @@ type PowerLawDistribution struct {
 /* -------------------------------------------------------------------------- */
 
 func NewPowerLawDistribution(alpha, xmin Scalar) (*PowerLawDistribution, error) {
-  if alpha.GetFloat64() <= 0.0 {
+  // the density (alpha-1)/xmin (x/xmin)^(-alpha) is proper only for alpha > 1, xmin > 0
+  if !(alpha.GetFloat64() > 1.0) {
     return nil, fmt.Errorf("invalid value for parameter alpha: %f", alpha.GetFloat64())
   }
-  if xmin.GetFloat64() == 0.0 {
+  if !(xmin.GetFloat64() > 0.0) {
     return nil, fmt.Errorf("invalid value for parameter x_min: %f", xmin.GetFloat64())
   }
   // some constants
@@ -102,13 +103,17 @@ func (dist *PowerLawDistribution) Pdf(r Scalar, x ConstScalar) error {
 }
 
 func (dist *PowerLawDistribution) LogCdf(r Scalar, x ConstScalar) error {
-  if x.GetFloat64() <= 0 {
+  if x.GetFloat64() < dist.Xmin.GetFloat64() {
     r.SetFloat64(math.Inf(-1))
     return nil
   }
+  // log(1 - (x/xmin)^(1-alpha))
   r.Div(x, dist.Xmin)
   r.Log(r)
   r.Mul(r, dist.ca)
+  r.Exp(r)
+  r.Neg(r)
+  r.Log1p(r)
 
   return nil
 }
